@@ -234,3 +234,59 @@ pub fn catch<T>(f: impl FnOnce() -> T) -> Result<T, String> {
         }),
     }
 }
+
+
+// ------------------------------------------------------------------------------------------
+// Watchdog of the real-daemon engine. A task of the subject that never goes idle (it is always
+// ready, but passes none of the instrumented loop steps) keeps the paused clock from advancing:
+// the schedule under execution never returns. That is a behaviour of the subject ("spins"), not
+// of the harness, so it is reported as a finding instead of hanging the check.
+use std::sync::{Mutex, OnceLock};
+static CONTEXT: OnceLock<(Args, Instant)> = OnceLock::new();
+static BEATS: Mutex<Vec<(std::thread::ThreadId, Instant, String, Vec<usize>, Vec<String>)>> = Mutex::new(Vec::new());
+
+pub fn set_context(args: &Args, started: Instant) {
+    let _ = CONTEXT.set((args.clone(), started));
+}
+
+/// called by the engine at every step of a schedule (`None`: the schedule has ended)
+pub fn heartbeat(schedule: Option<(&str, &[usize], &[String])>) {
+    let me = std::thread::current().id();
+    let mut b = BEATS.lock().unwrap();
+    b.retain(|e| e.0 != me);
+    if let Some((name, prefix, acts)) = schedule {
+        b.push((me, Instant::now(), name.to_string(), prefix.to_vec(), acts.to_vec()));
+    }
+}
+
+pub fn start_watchdog() {
+    static ONCE: std::sync::Once = std::sync::Once::new();
+    ONCE.call_once(|| {
+        let limit = std::env::var("VERIF_WATCHDOG_S").ok().and_then(|s| s.parse::<u64>().ok()).unwrap_or(120);
+        std::thread::spawn(move || loop {
+            std::thread::sleep(std::time::Duration::from_secs(5));
+            let stale = {
+                let b = BEATS.lock().unwrap();
+                b.iter().find(|e| e.1.elapsed().as_secs() >= limit).cloned()
+            };
+            if let Some((_, since, name, prefix, acts)) = stale {
+                let Some((args, started)) = CONTEXT.get() else { continue };
+                let mut rep = Report::new("model_checking");
+                rep.coverage = json!({"states": 1, "transitions": 1, "traces_validated_against_impl": 0, "samples": [acts], "explanation": "the run was ended by the watchdog: one schedule of the real daemons never returned"});
+                rep.violations.push(Violation {
+                    clause: "never-idle".into(),
+                    signature: format!("never-idle|{}", name.split(" size=").next().unwrap_or(&name)),
+                    detail: format!(
+                        "a task of the real daemon stayed runnable for {} s of real time without the virtual clock being able to advance and without passing an instrumented loop step (it spins): schedule {:?} of scenario {}",
+                        since.elapsed().as_secs(),
+                        acts,
+                        name
+                    ),
+                    replay: json!({"engine": "daemon-dbx", "scenario": name, "choices": prefix, "note": "replaying this schedule does not return; bound it with VERIF_WATCHDOG_S"}),
+                });
+                let code = finish(args, *started, rep);
+                std::process::exit(code);
+            }
+        });
+    });
+}
